@@ -201,7 +201,7 @@ class SolverRun:
 
     def __init__(self, problem, r=2.0, eps=0.01, limit=200, m=10, refine=False, fault=None, listener="rec",
                  extra_listeners=(), tag="", full_snap=True, events=None, cbs=("before", "enditer", "stop"),
-                 extra_first=False, probing=False):
+                 extra_first=False, probing=False, lip=None, fmin=None):
         self.tid = next(SolverRun._tid)
         self.events = events if events is not None else []
         self.rp = RecProblem(problem, fault=fault)
@@ -223,7 +223,8 @@ class SolverRun:
                 self.solver.AddListener(l)
         self.emit({"ev": "init", "n": self.n, "m": int(m), "lo": qv(self.rp.lowerBoundOfFloatVariables),
                    "up": qv(self.rp.upperBoundOfFloatVariables), "r": q(float(r)), "eps": q(float(eps)),
-                   "limit": int(limit), "refine": bool(refine), "tag": tag, "cbs": self.cbs, "probing": bool(probing)})
+                   "limit": int(limit), "refine": bool(refine), "tag": tag, "cbs": self.cbs, "probing": bool(probing),
+                   "lip": q(float(lip)) if lip is not None else "none", "fmin": q(float(fmin)) if fmin is not None else "none"})
 
     def emit(self, e):
         e["tid"] = self.tid
